@@ -119,6 +119,23 @@ def run(ctx):
     import progcheck
     progcheck.codes_table_check(ctx, {"hier"})
 
+    # (2c) thorough: the representation invariant is inductive and implies Impl = Ref for *any* set of markers over 5 positions and
+    # 6 tokens, however many add-operations built it (Apalache; TLC above is bounded by the number of operations)
+    if thorough:
+        if not ctx.apalache("IgnoreSetInd", "Init", "IndInv", 0):
+            raise vlib.ToolError("IgnoreSetInd: Init does not establish IndInv")
+        if not ctx.apalache("IgnoreSetInd", "IndInit", "IndInv", 1, timeout=3000):
+            raise vlib.ToolError("IgnoreSetInd: IndInv is not inductive")
+        if not ctx.apalache("IgnoreSetInd", "IndInit", "Agree", 0, timeout=3000):
+            raise vlib.ToolError("IgnoreSetInd: IndInv does not imply Agree")
+        src = open(os.path.join(ctx.specdir, "IgnoreSetInd.tla")).read()
+        dev = src.replace("p < minPos \\/ p > maxPos THEN FALSE", "p <= minPos \\/ p > maxPos THEN FALSE").replace("MODULE IgnoreSetInd ", "MODULE IgnoreSetIndDev ")
+        if dev == src.replace("MODULE IgnoreSetInd ", "MODULE IgnoreSetIndDev "):
+            raise vlib.ToolError("could not build the deviation of IgnoreSetInd")
+        open(os.path.join(ctx.specdir, "IgnoreSetIndDev.tla"), "w").write(dev)
+        if ctx.apalache("IgnoreSetIndDev", "IndInit", "Agree", 0, timeout=3000):
+            raise vlib.ToolError("IgnoreSetInd: Agree holds with a broken fast reject as well: vacuous")
+
     # (3) insertion order explored inside TLC as well (no emission)
     ctx.tlc("MCIgnoreSet", cfg(3 if thorough else 2, False, False), label="c16_orders", timeout=1500)
 
